@@ -1,4 +1,5 @@
 import FlodymProofs.Props.C17
+import FlodymProofs.Props.C17Failing
 #print axioms Flodym.C17.ensureSf_spec
 #print axioms Flodym.C17.ensurePdf_spec
 #print axioms Flodym.C17.step_inv
@@ -8,3 +9,13 @@ import FlodymProofs.Props.C17
 #print axioms Flodym.C17.compute_idempotent
 #print axioms Flodym.C17.source_resets_caches
 #print axioms Flodym.C17.stale_cache_counterexample
+#print axioms Flodym.C17.ensureSfE_spec
+#print axioms Flodym.C17.ensurePdfE_spec
+#print axioms Flodym.C17.stepE_inv
+#print axioms Flodym.C17.runE_inv
+#print axioms Flodym.C17.readSfE_of_inv
+#print axioms Flodym.C17.computeE_of_inv
+#print axioms Flodym.C17.computeE_eq_fresh
+#print axioms Flodym.C17.stepE_total
+#print axioms Flodym.C17.source_failed_build_discarded
+#print axioms Flodym.C17.kept_failed_build_counterexample
